@@ -72,8 +72,14 @@ func ZeroValueOf(typeExpr ast.Expr, typ types.Type) ast.Expr {
 		}
 
 	case *types.Slice, *types.Map, *types.Pointer, *types.Interface:
+		fun := typeExpr
+		switch typeExpr.(type) {
+		case *ast.StarExpr, *ast.ChanType:
+			// `*T(nil)` is `*(T(nil))`, the conversion needs `(*T)(nil)`.
+			fun = &ast.ParenExpr{X: typeExpr}
+		}
 		return &ast.CallExpr{
-			Fun:  typeExpr,
+			Fun:  fun,
 			Args: []ast.Expr{&ast.Ident{Name: "nil"}},
 		}
 
